@@ -195,6 +195,9 @@ def _items_cover(ctx):
             return iter(self.elems)
 
         def __getitem__(self, i):
+            if self.kind == 'keyed-collection':
+                # addressed by its items (a user mapping that is not a Mapping): an integer position is not a key
+                raise _Raise('KeyError', f'{self!r}[{i!r}]')
             return self.elems[i]
 
         def items(self):
@@ -234,6 +237,8 @@ def _items_cover(ctx):
             return ('Mapping' in repr(args[1])) == (args[0] in ('TYPE:mapping', 'TYPE:counter'))
         if name == 'id' and args and isinstance(args[0], AObj):
             return id(args[0])
+        if name == 'hasattr' and len(args) == 2 and isinstance(args[0], _Col) and isinstance(args[1], str):
+            return hasattr(_Col, args[1]) and not (args[1] == '__getitem__' and args[0].kind == 'collection')
         if name == 'type' and len(args) == 1 and isinstance(args[0], _Item):
             return args[0]._abstract_type
         if name in ('len', 'bool', 'iter', 'next') and args and isinstance(args[0], _Col):
@@ -251,7 +256,7 @@ def _items_cover(ctx):
     O1 = F.eval_in(cenum, ast.parse('BeartypeStrategy.O1', mode='eval').body)
     n = 0
     try:
-        for kind, fac in (('sequence', LIST), ('collection', SET), ('mapping', DICT), ('counter', COUNTER), ('tuple', TUPLE)):
+        for kind, fac in (('sequence', LIST), ('collection', SET), ('keyed-collection', SET), ('mapping', DICT), ('counter', COUNTER), ('tuple', TUPLE)):
             for size in (0, 1, 2, 3):
                 for sname, strat in (('On', ON), ('O1', O1)):
                     for nested in ((False, True) if kind == 'tuple' else (False,)):
@@ -261,7 +266,12 @@ def _items_cover(ctx):
                         try:
                             out = _call_function(F, fn, [], dict(obj=col, hint_factory=fac, conf=AConf(strategy=strat),
                                                                  __beartype_obj_ids_seen__=seen, origin_type=f'TYPE:{kind}'), 1)
-                        except (_Abort, _Raise) as ex:
+                        except _Raise as ex:
+                            n += 1
+                            ctx.ob('C20.R5', f'items:{kind}{"(nested)" if nested else ""}:{size}-items:{sname}', im.where(fn.node),
+                                   f'the items of a {kind} of {size} item(s) are inferred without an exception', False, f'raises {ex}')
+                            continue
+                        except _Abort as ex:
                             ctx.require(False, f'cannot interpret infer_hint_collection_items ({kind}, {size} items, {sname}): {ex}')
                         n += 1
                         if size:
